@@ -14,8 +14,8 @@ VT = "python3-vt"
 FAMILIES_OF = {
     "C01": ["plain", "full", "wide", "hints", "hard", "deep", "lazycon", "tiny", "dense"],
     "C02": ["plain", "full", "wide", "hints", "hard", "deep", "lazycon", "tiny", "dense"],
-    "C03": ["plain", "full", "wide", "hints", "hard", "deep", "lazycon", "tiny", "dense"],
-    "C04": ["plain", "full", "wide", "hints", "soft", "softx", "reuse", "deep", "lazycon", "dense"],
+    "C03": ["plain", "full", "wide", "hints", "hard", "deep", "lazycon", "tiny", "dense", "diamond"],
+    "C04": ["plain", "full", "wide", "hints", "soft", "softx", "reuse", "deep", "lazycon", "dense", "diamond"],
     "C05": ["plain", "full", "hints", "soft", "softx", "softloop", "hard", "deep", "lazycon", "dense"],
     "C07": ["plain", "full", "wide", "hard", "deep", "lazycon", "dense"],
     "C08": ["plain", "full", "wide", "hard", "deep", "lazycon", "dense"],
